@@ -409,6 +409,15 @@ pub fn hand_written() -> Vec<Seed> {
         "string-methods",
         "fn f(s: String, t: String) -> bool { s.contains(t) || (s + t).starts_with(\"x\") || s.append(t).to_uppercase() == t }\n",
     );
+    s(
+        "receiver-of-a-method",
+        "fn f(l: List[i32]) -> u64 { l.len() }\n\
+         fn g(l: List[u8], x: u8) -> bool { l.contains(x) }\n\
+         fn h(l: List[String]) -> String { l.join(\",\") }\n\
+         fn k(s: String) -> String { s.to_uppercase() }\n\
+         fn m(r: { q: List[u16] }) -> u64 { let v: List[u16] = r.q; v.len() }\n",
+    );
+    s("receiver-prefix", "fn f(p: Prefix) -> u8 { p.len() }\n");
     s("to-string", "fn f(a: u32, b: bool) -> String { a.to_string() + (a + 1).to_string() + b.to_string() }\n");
     s(
         "floats",
